@@ -38,6 +38,7 @@ static inline QChar QChar_ctor__int(int rc) { QChar c; c.u = (unsigned short)(rc
 static inline QChar QChar_ctor__unsignedshort(unsigned short rc) { QChar c; c.u = rc; return c; }
 static inline QChar QChar_ctor(void) { QChar c; c.u = 0; return c; }
 static inline unsigned short *QChar_unicode(QChar *c) { return &c->u; }
+static inline unsigned short QChar_unicode__const(QChar c) { return c.u; }
 static inline QChar *QChar_op_assign__QChar(QChar *self, QChar o) { self->u = o.u; return self; }
 static inline BOOL op_eq__QChar_QChar(QChar a, QChar b) { return a.u == b.u; }
 static inline BOOL op_ne__QChar_QChar(QChar a, QChar b) { return a.u != b.u; }
@@ -152,6 +153,7 @@ typedef struct {
     int wpos;               /* position of the witness character, -1: not in this string */
 } QString;
 typedef struct { int len; int id; } QLatin1String;
+extern QString g_val; extern int g_val_kind, g_val_src;     /* ghost (C12): the last VALUE obtained from Qt and its source, see QS_VALUE_HOOK */
 /* well-formedness of the little exact content a string carries */
 #ifdef LEN_LIGHT
 /* light variant (units that need lengths only): no exact content at all */
@@ -173,6 +175,11 @@ static inline QString qs_any(int len)
 /* ... of any length in [lo, hi] */
 static inline QString qs_any_between(int lo, int hi)
 { QString s = nondet_QString(); __CPROVER_assume(s.len >= lo && s.len <= hi && QSTRING_VALID(s)); QS_CONTENT(__CPROVER_assume(s.wpos == -1);) return s; }
+/* per-proof hook (C12): remembers the VALUE a token obtained and where it came from */
+#ifndef QS_VALUE_HOOK
+#define QS_VALUE_HOOK(s, kind, srcid)
+#endif
+enum { SRC_OTHER = 0, SRC_CSTR = 1, SRC_VARIANT = 2, SRC_NUMBER = 3 };
 /* a VALUE (message text, category, file, attribute text, number text): carries the witness at g_src_wpos when that is inside it */
 static inline QString qs_value(int lo, int hi)
 { QString s = nondet_QString(); __CPROVER_assume(s.len >= lo && s.len <= hi && QSTRING_VALID(s)); QS_CONTENT(__CPROVER_assume(s.wpos == (g_src_wpos >= 0 && g_src_wpos < s.len ? g_src_wpos : -1));) return s; }
@@ -215,12 +222,14 @@ static inline QCharRef QString_op_index__int(QString *s, int i)
 static inline QChar QString_op_index__int__const(QString s, int i)
 { __CPROVER_assert(i >= 0 && i < s.len, "C14 index in range: QString::operator[](i) const needs 0 <= i < size()"); QChar c; c.u = qs_unit(s, i); return c; }
 
+/* identity of the slice [pos, pos + n) of the text with identity id */
+int __CPROVER_uninterpreted_mid_id(int id, int pos, int n);
 /* s with its last n (1 <= n <= len) code units removed */
 static inline QString qs_drop_last(QString s, int n)
 {
     QString r = nondet_QString();
     int L = s.len - n;
-    __CPROVER_assume(r.len == L && QSTRING_VALID(r));
+    __CPROVER_assume(r.len == L && QSTRING_VALID(r) && r.id == __CPROVER_uninterpreted_mid_id(s.id, 0, L));
     QS_CONTENT(__CPROVER_assume(r.wpos == (s.wpos < L ? s.wpos : -1));
     __CPROVER_assume(L < 1 || r.c0 == s.c0); __CPROVER_assume(L < 2 || r.c1 == s.c1);
     __CPROVER_assume(n > s.tail || r.tail == s.tail - n);)        /* still inside the trailing run: the rest of the run remains */
@@ -231,14 +240,21 @@ static inline QString qs_drop_first(QString s, int n)
 {
     QString r = nondet_QString();
     int L = s.len - n;
-    __CPROVER_assume(r.len == L && QSTRING_VALID(r));
+    __CPROVER_assume(r.len == L && QSTRING_VALID(r) && r.id == __CPROVER_uninterpreted_mid_id(s.id, n, L));
     QS_CONTENT(__CPROVER_assume(r.wpos == (s.wpos >= n ? s.wpos - n : -1));
     __CPROVER_assume(L < 1 || r.cl == s.cl);
     __CPROVER_assume(n != 1 || L < 1 || r.c0 == s.c1);
     __CPROVER_assume(r.tail == (s.tail <= L ? s.tail : L));)
     return r;
 }
-static inline void QString_chop__int(QString *s, int n) { int L = qt_chop_len(s->len, n); if (L != s->len) *s = qs_drop_last(*s, s->len - L); }
+/* per-proof obligation hooks (C12): what may be REMOVED from a buffer */
+#ifndef OBL_C12_CHOP
+#define OBL_C12_CHOP(s, n)
+#endif
+#ifndef OBL_C12_REMOVE
+#define OBL_C12_REMOVE(s, c)
+#endif
+static inline void QString_chop__int(QString *s, int n) { int L = qt_chop_len(s->len, n); if (L != s->len) { OBL_C12_CHOP(*s, s->len - L) *s = qs_drop_last(*s, s->len - L); } }
 static inline void QString_truncate__int(QString *s, int pos) { int L = qt_truncate_len(s->len, pos); if (L != s->len) *s = qs_drop_last(*s, s->len - L); }
 static inline void QString_resize__int(QString *s, int n)
 { if (n < 0) n = 0; if (n < s->len) *s = qs_drop_last(*s, s->len - n); else if (n > s->len) { __CPROVER_assume(n <= LEN_MAX); int w = s->wpos; *s = qs_any(n); (void)w; } }
@@ -246,7 +262,6 @@ static inline QString QString_left__int(QString s, int n) { int L = qt_left_len(
 static inline QString QString_right__int(QString s, int n) { int L = qt_left_len(s.len, n); return L == s.len ? s : qs_drop_first(s, s.len - L); }
 static inline QString QString_chopped__int(QString s, int n) { __CPROVER_assert(n >= 0 && n <= s.len, "C14 index in range: QString::chopped(n) needs 0 <= n <= size()"); return n == 0 ? s : qs_drop_last(s, n); }
 /* mid(pos, n): the slice [p, p + L) */
-int __CPROVER_uninterpreted_mid_id(int id, int pos, int n);
 static inline QString QString_mid__int_int(QString s, int pos, int n)
 {
     int L = qt_mid_len(s.len, pos, n);
@@ -292,12 +307,12 @@ static inline QString QString_ctor__int_QChar(int n, QChar ch)
     QString s; s.len = n; s.id = 0; s.c0 = ch.u; s.c1 = ch.u; s.cl = ch.u; s.tail = ch.u == MARK ? n : 0; s.wpos = -1; return s;
 }
 /* text that comes from OUTSIDE the formatter (a VALUE): any content, may carry the witness */
-static inline QString QString_ctor__cstr(cstr c) { return qs_value(0, c.isnull ? 0 : c.len); }                  /* fromUtf8: at most one unit per byte */
-static inline QString QString_fromUtf8__cstr(cstr c) { return qs_value(0, c.isnull ? 0 : c.len); }
+static inline QString QString_ctor__cstr(cstr c) { QString s = qs_value(0, c.isnull ? 0 : c.len); QS_VALUE_HOOK(s, SRC_CSTR, c.id) return s; }                  /* fromUtf8: at most one unit per byte */
+static inline QString QString_fromUtf8__cstr(cstr c) { QString s = qs_value(0, c.isnull ? 0 : c.len); QS_VALUE_HOOK(s, SRC_CSTR, c.id) return s; }
 static inline QString QString_fromLatin1__cstr(cstr c) { int n = c.isnull ? 0 : c.len; return qs_value(n, n); }
 static inline QString QString_fromLatin1__QByteArray(QByteArray b) { return qs_value(b.len, b.len); }
 static inline QString QString_fromUtf8__QByteArray(QByteArray b) { return qs_value(0, b.len); }
-static inline QString QString_number__int(int n) { return qs_value(1, 11); }
+static inline QString QString_number__int(int n) { QString s = qs_value(1, 11); QS_VALUE_HOOK(s, SRC_NUMBER, n) return s; }
 static inline QString QString_number__unsignedlonglong_int(unsigned long long n, int base) { return qs_value(1, 64); }
 static inline QString QString_number__double_char_int(double d, char f, int prec) { return qs_value(1, 400); }
 static inline QString QString_trimmed(QString *s) { QString r = nondet_QString(); __CPROVER_assume(r.len >= 0 && r.len <= s->len && QSTRING_VALID(r)); QS_CONTENT(__CPROVER_assume(r.wpos == -1);) return r; }
@@ -342,6 +357,7 @@ static inline int QString_indexOf__QString(QString s, QString p) { return qt_ind
 static inline QString *QString_remove__QChar(QString *s, QChar c)
 {
     QString r = nondet_QString();
+    OBL_C12_REMOVE(*s, c)
     __CPROVER_assume(r.len >= 0 && r.len <= s->len && QSTRING_VALID(r));
 #ifndef LEN_LIGHT
     if (c.u == MARK) { __CPROVER_assume(r.len <= s->len - s->tail && r.tail == 0); }
@@ -365,7 +381,7 @@ int __CPROVER_uninterpreted_hash_value(int base, int key);
 static inline BOOL QVariantHash_contains__QString(QVariantHash self, QString key) { return __CPROVER_uninterpreted_hash_contains(self.id, key.id) != 0; }
 static inline QVariant QVariantHash_value__QString(QVariantHash self, QString key) { QVariant v; v.id = __CPROVER_uninterpreted_hash_value(self.id, key.id); return v; }
 /* QVariant::toString(): any text, possibly empty (an attribute may be present with an empty value) */
-static inline QString QVariant_toString(QVariant v) { return qs_value(0, LEN_MAX); }
+static inline QString QVariant_toString(QVariant v) { QString s = qs_value(0, LEN_MAX); QS_VALUE_HOOK(s, SRC_VARIANT, v.id) return s; }
 typedef struct { long long msecs; } QDateTime;
 typedef struct { long long ticks; } steady_time_point;
 typedef struct { long long n; } chrono_duration;
